@@ -215,9 +215,22 @@ func registerStrings(e *Engine) {
 }
 
 func (m *Machine) addPCAssume(t *Term) {
+	if t.kind == KConst || m.pcSet[t] {
+		m.addPC(t)
+		return
+	}
+	// the feasibility verdict is recorded in the decision trail so that re-executions of
+	// the prefix do not repeat the query
+	if m.tpos < len(m.trail) {
+		m.tpos++
+		m.addPC(t)
+		return
+	}
 	if m.feasible(t) == Unsat {
 		panic(pathEnd{kind: "infeasible"})
 	}
+	m.trail = append(m.trail, 1)
+	m.tpos++
 	m.addPC(t)
 }
 
